@@ -13,6 +13,13 @@
    pattern syntax (prefix): p i | f b | x n c.. | a | w | c n c.. | s k (n c..)* | e o | q | n |
      S k pats | E k pats | A k pats | N k pats | M k pats | R req pat | I pat | C pat | T o pat |
      X k pats | d | Z k pats k pats | P o | W k (n c.. pat)*
+         O         ModalOf::match_to_lint on the tokens as ONE matched slice (Model/C01Bodies.modal_of_body) -> "P" | "N" | "a-b"
+         OL        ModalOf through impl Linter: iter_chunks + run_on_chunk (generated modal_of_pattern) + modal_of_body
+                   -> "P" | one "N" / "a-b" per call of match_to_lint
+         Q k rows.. contents..   a proper-noun rule: rows as fat-token kinds (W text | S | B | p i), the model applies its
+                   own ExactPhrase::from_document (exact_phrase_of); contents: per row the texts of the canonical tokens;
+                   run_on_chunk (PatternMap) + proper_noun_body -> "P" | the spans of the lints, sorted
+         U         RepeatedWords: the slices between neighbouring words on every chunk -> "P" | "ok"
    and, without sections:  B <RuleName> <n>   "can a non-zero match of this rule's pattern (generated table
          rule_table, Model/Tables_rulebodies.v) be n tokens long?"  -> "ok" | "impossible" | "unknown-rule"    *)
 let lbits = ref [||]
@@ -89,6 +96,16 @@ let rec fill tbl = function a :: b :: r -> Hashtbl.replace tbl (a, b) (); fill t
 
 let show_span (s : span) = Printf.sprintf "%d-%d" (int_of_nat s.sstart) (int_of_nat s.send)
 
+let show_outcome = function None -> "N" | Some s -> show_span s
+let p_fkind ws =
+  match ws with
+  | "W" :: ws -> let (t, ws) = p_text ws in (FWord t, ws)
+  | "S" :: ws -> (FSpace, ws)
+  | "B" :: ws -> (FParaBreak, ws)
+  | "p" :: ws -> let (i, ws) = p_int ws in (FPunct (nat_of_int i), ws)
+  | _ -> failwith "fat-token kind expected"
+let rec all_ok = function [] -> Ok [] | Ok x :: r -> (match all_ok r with Ok l -> Ok (x :: l) | Panic p -> Panic p) | Panic p :: _ -> Panic p
+
 let () =
   iter_lines (fun l ->
     if String.length l = 0 then print_newline () else
@@ -161,6 +178,33 @@ let () =
                (match r with
                 | Ok cs -> print_endline (String.concat " " (List.map (fun c -> string_of_int (List.length c)) cs))
                 | Panic _ -> print_endline "P")
+           | [ "O" ] ->
+               (match modal_of_body toks src with
+                | Ok r -> print_endline (show_outcome r)
+                | Panic _ -> print_endline "P")
+           | [ "OL" ] ->
+               (match rule_lint leaf oracle modal_of_body modal_of_pattern toks src with
+                | Ok l -> print_endline (String.concat " " (List.map show_outcome l))
+                | Panic _ -> print_endline "P")
+           | "Q" :: ws ->
+               let (k, ws) = p_int ws in
+               let (kinds, ws) = take k (fun ws -> let (n, ws) = p_int ws in take n p_fkind ws) ws in
+               let (canon, _) = take k (fun ws -> let (n, ws) = p_int ws in take n p_text ws) ws in
+               (match all_ok (List.map exact_phrase_of kinds) with
+                | Panic _ -> print_endline "P"
+                | Ok rows ->
+                    (match rule_lint leaf oracle (proper_noun_body leaf oracle rows canon) (PMap rows) toks src with
+                     | Ok l ->
+                         let sps = List.filter_map (fun x -> x) l in
+                         let sps = List.sort compare (List.map (fun (s : span) -> (int_of_nat s.sstart, int_of_nat s.send)) sps) in
+                         print_endline (String.concat " " (List.map (fun (a, b) -> Printf.sprintf "%d-%d" a b) sps))
+                     | Panic _ -> print_endline "P"))
+           | [ "U" ] ->
+               (match iter_chunks toks with
+                | Panic _ -> print_endline "P"
+                | Ok cs ->
+                    if List.for_all (fun c -> match repeated_words_uses c with Ok _ -> true | Panic _ -> false) cs
+                    then print_endline "ok" else print_endline "P")
            | [ "H" ] ->
                (match hull toks with
                 | None -> print_endline "N"
